@@ -632,7 +632,7 @@ func (r *ruleState) onQuiesceEnd(rounds int) {
 		return
 	}
 	if s.pendingWork() || s.sys == nil {
-		s.violate("C11.not_quiescent", P("C11", "C12"), "kernel", "queues not empty after the convergence window ["+s.cfgClass()+"]", "")
+		s.violate("C11.not_quiescent", r.c11props("C12"), "kernel", "queues not empty after the convergence window ["+s.cfgClass()+"]", "")
 	}
 	// a schedule whose occurrences arrive about as fast as firing cycles creates, cycle after
 	// cycle, promises that are overdue the moment they are stored (their deadline counts from the
@@ -656,7 +656,7 @@ func (r *ruleState) onQuiesceEnd(rounds int) {
 		for _, id := range tables.SortedKeys(last.Promises) {
 			p := last.Promises[id]
 			if p.State == 1 && p.Timeout <= now && (p.CreatedOn == nil || *p.CreatedOn <= now) {
-				s.violate("C11.promise_overdue", P("C11", "C04"), "promise", "pending past its timeout after the convergence window ["+s.cfgClass()+"]", fmt.Sprintf("now %d rounds %d: %s", now, rounds, p))
+				s.violate("C11.promise_overdue", r.c11props("C04"), "promise", "pending past its timeout after the convergence window ["+s.cfgClass()+"]", fmt.Sprintf("now %d rounds %d: %s", now, rounds, p))
 				break
 			}
 		}
@@ -665,7 +665,7 @@ func (r *ruleState) onQuiesceEnd(rounds int) {
 		for _, id := range tables.SortedKeys(last.Locks) {
 			l := last.Locks[id]
 			if l.ExpiresAt <= now {
-				s.violate("C11.lock_overdue", P("C11", "C09"), "lock", "lock past its lease after the convergence window ["+s.cfgClass()+"]", fmt.Sprintf("now %d rounds %d: %s", now, rounds, l))
+				s.violate("C11.lock_overdue", r.c11props("C09"), "lock", "lock past its lease after the convergence window ["+s.cfgClass()+"]", fmt.Sprintf("now %d rounds %d: %s", now, rounds, l))
 				break
 			}
 		}
@@ -693,7 +693,7 @@ func (r *ruleState) onQuiesceEnd(rounds int) {
 				continue
 			}
 			if sc.NextRunTime <= now {
-				s.violate("C11.schedule_overdue", P("C11", "C10"), "schedule", "next run time in the past after the convergence window ["+s.cfgClass()+"]", fmt.Sprintf("now %d rounds %d: %s", now, rounds, sc))
+				s.violate("C11.schedule_overdue", r.c11props("C10"), "schedule", "next run time in the past after the convergence window ["+s.cfgClass()+"]", fmt.Sprintf("now %d rounds %d: %s", now, rounds, sc))
 				break
 			}
 		}
@@ -706,7 +706,7 @@ func (r *ruleState) onQuiesceEnd(rounds int) {
 				if t.ExpiresAt < due {
 					due = t.ExpiresAt
 				}
-				s.violate("C11.task_overdue", P("C11", "C07"), "task", "enqueued or claimed task past its lease or timeout after the convergence window ["+s.cfgClass()+"] "+passedOver(r.sweepReads, due, t.Id), fmt.Sprintf("now %d rounds %d: %s", now, rounds, t))
+				s.violate("C11.task_overdue", r.c11props("C07"), "task", "enqueued or claimed task past its lease or timeout after the convergence window ["+s.cfgClass()+"] "+passedOver(r.sweepReads, due, t.Id), fmt.Sprintf("now %d rounds %d: %s", now, rounds, t))
 				break
 			}
 		}
@@ -722,13 +722,23 @@ func (r *ruleState) onQuiesceEnd(rounds int) {
 					}
 				}
 				if still {
-					s.violate("C11.task_undispatched", P("C11", "C08"), "task", "dispatchable task never dispatched during the convergence window ["+s.cfgClass()+"] "+passedOver(r.dispatchReads, 0, root), fmt.Sprintf("root %q, rounds %d", root, rounds))
+					s.violate("C11.task_undispatched", r.c11props("C08"), "task", "dispatchable task never dispatched during the convergence window ["+s.cfgClass()+"] "+passedOver(r.dispatchReads, 0, root), fmt.Sprintf("root %q, rounds %d", root, rounds))
 					break
 				}
 			}
 		}
 	}
 	s.Probes["convergence_checked"]++
+}
+
+// c11props: convergence violations belong to C11 and to the property that owns the row; after a
+// restart in the same run they are also C06's ("background processing resumes from the stored state").
+func (r *ruleState) c11props(owner string) []string {
+	props := []string{"C11", owner}
+	if r.s.boot > 1 {
+		props = append(props, "C06")
+	}
+	return props
 }
 
 // passedOver names what kept a row waiting: every read of the background coroutine since the row
